@@ -584,51 +584,96 @@ struct Capture {
     defs_consistent: bool,
 }
 
+/// One spill round: the ops handed to `spill`, the spill set and the slots `spill` gives them.
+#[derive(Clone)]
+struct Round {
+    ops: Vec<Op>,
+    slots: Vec<(VirtualRegister, u32)>,
+}
+
 thread_local! {
     static CAPTURE: RefCell<Option<Capture>> = const { RefCell::new(None) };
-    /// spill sets of the rounds of the allocation running on this thread
-    static ROUNDS: RefCell<Vec<Vec<VirtualRegister>>> = const { RefCell::new(Vec::new()) };
+    /// spill rounds of the allocation running on this thread
+    static ROUNDS: RefCell<Vec<Round>> = const { RefCell::new(Vec::new()) };
 }
 
 static DUMP_SEQ: std::sync::atomic::AtomicUsize = std::sync::atomic::AtomicUsize::new(0);
 
+/// `spill`'s own computation of the locals size it hands to `spill_offsets`.
+fn spill_base(ops: &[Op]) -> Option<u32> {
+    ops.iter().find_map(|op| match &op.opcode {
+        Either::Left(VirtualOp::CFEI(VirtualRegister::Constant(ConstantRegister::StackPointer), i)) => {
+            Some(i.value().div_ceil(8) * 8)
+        }
+        _ => None,
+    })
+}
+
 /// Called by `allocate_registers` after each failed colouring, before `spill` (`round` counts from 1).
-pub(crate) fn on_spill(round: usize, spills: &FxHashSet<VirtualRegister>) {
-    let mut v: Vec<VirtualRegister> = spills.iter().cloned().collect();
-    v.sort();
+pub(crate) fn on_spill(round: usize, ops_before_spill: &[Op], spills: &FxHashSet<VirtualRegister>) {
+    let mut slots: Vec<(VirtualRegister, u32)> = match spill_base(ops_before_spill) {
+        Some(base) => access::spill_offsets(spills, base).into_iter().collect(),
+        // `spill` is about to panic; record the set without slots
+        None => spills.iter().map(|r| (r.clone(), u32::MAX)).collect(),
+    };
+    slots.sort();
     ROUNDS.with(|r| {
         let mut r = r.borrow_mut();
         if round <= 1 {
             r.clear();
         }
-        r.push(v);
+        r.push(Round {
+            ops: ops_before_spill.to_vec(),
+            slots,
+        });
     });
 }
 
-fn rounds_text(rounds: &[Vec<VirtualRegister>], nm: &Namer) -> String {
+fn slots_text(slots: &[(VirtualRegister, u32)], nm: &Namer) -> String {
+    if slots.is_empty() {
+        return "-".into();
+    }
+    slots
+        .iter()
+        .map(|(r, o)| format!("{}={}", nm.reg(r), o))
+        .collect::<Vec<_>>()
+        .join(",")
+}
+
+/// `<ops>@<v=slot,…>` per round, rounds joined by `#`, `-` when nothing was spilled.
+fn rounds_text(rounds: &[Round], nm: &Namer) -> String {
     if rounds.is_empty() {
         return "-".into();
     }
-    rounds.iter().map(|s| nm.regs(s.iter())).collect::<Vec<_>>().join("|")
+    rounds
+        .iter()
+        .map(|r| format!("{}@{}", ops_text(&r.ops, nm, false), slots_text(&r.slots, nm)))
+        .collect::<Vec<_>>()
+        .join("#")
 }
 
-/// For every op: the allocated instruction defines exactly the images of the virtual defs.
+/// For every op: the allocated instruction defines exactly the images of the virtual defs
+/// (pool registers only).
 fn defs_consistent(final_ops: &[Op], pool: &[(VirtualRegister, AllocatedRegister)], allocated: &[AllocatedAbstractOp]) -> bool {
     let map: HashMap<&VirtualRegister, &AllocatedRegister> = pool.iter().map(|(v, a)| (v, a)).collect();
     final_ops.len() == allocated.len()
         && final_ops.iter().zip(allocated).all(|(op, al)| {
+            // only pool registers are compared: allocated instructions do not list implicit
+            // definitions of constant registers ($sp, $hp)
             let want: Option<BTreeSet<AllocatedRegister>> = op
                 .def_registers()
                 .into_iter()
-                .map(|r| match r {
-                    VirtualRegister::Constant(c) => Some(AllocatedRegister::Constant(*c)),
-                    v => map.get(v).map(|a| (*a).clone()),
-                })
+                .filter(|r| r.is_virtual())
+                .map(|v| map.get(v).map(|a| (*a).clone()))
                 .collect();
             let got: BTreeSet<AllocatedRegister> = match &al.opcode {
                 Either::Left(i) => i.def_registers().into_iter().cloned().collect(),
                 Either::Right(c) => c.def_registers().into_iter().cloned().collect(),
             };
+            let got: BTreeSet<AllocatedRegister> = got
+                .into_iter()
+                .filter(|a| matches!(a, AllocatedRegister::Allocated(_)))
+                .collect();
             want == Some(got)
         })
 }
@@ -641,7 +686,7 @@ pub(crate) fn on_allocated(
     allocated: &[AllocatedAbstractOp],
     spill_rounds: usize,
 ) {
-    let rounds: Vec<Vec<VirtualRegister>> = ROUNDS.with(|r| {
+    let rounds: Vec<Round> = ROUNDS.with(|r| {
         let mut r = r.borrow_mut();
         if spill_rounds > 0 {
             std::mem::take(&mut *r)
@@ -688,7 +733,7 @@ pub struct AllocReport {
     pub final_ops: String,
     /// `v<k>=<pool register>` for every register of the pool's `used_by` sets
     pub assign: String,
-    /// spill sets per round, `|` separated
+    /// spill rounds: `<ops handed to spill>@<v=slot,…>` joined by `#` (`-` = no spilling)
     pub spilled: String,
     pub rounds: usize,
     /// every allocated instruction defines exactly the images of the virtual defs
